@@ -12,6 +12,10 @@ def _symbolic(x):
 
 # ---- builtins -----------------------------------------------------------------------------------
 def v_max(*args, **kw):
+    if len(args) == 1 and getattr(args[0], "_vcx_asarray", False) and not set(kw) - {"default"}:
+        from . import vecs
+        if isinstance(args[0], (vecs.SV, vecs.Concat)):
+            return vecs.py_seq_max(args[0], kw.get("default"), "default" in kw)
     if len(args) == 1:
         args = list(args[0])
         if not args and "default" in kw:
